@@ -408,11 +408,19 @@ pub fn gen_small(prop: &str, seed: u64, idx: u64) -> (StreamScenario, GenInfo) {
     let r = &mut rng;
     let case = r.chance(1, 5);
     let pal = palette(r, case);
-    let pats = gen_patterns(r, &pal, prop != "C18");
+    // C18 re-executes every fault position: no pattern sets of 13-300 there, but
+    // long patterns (around 100 / 256 bytes) are allowed
+    let pats = gen_patterns_ext(r, &pal, prop != "C18", true);
     let maxlen = pats.iter().map(|p| p.len()).max().unwrap();
     let spare = spare_choices(r, maxlen);
     let cap = maxlen + spare.unwrap_or(3).max(1);
-    let limit = if prop == "C18" { 160 } else { 1200 };
+    let limit = if prop == "C18" {
+        // short streams so that every fault position can be enumerated; with a long
+        // pattern the stream must still be able to roll a few times
+        if maxlen >= 100 { 4 * maxlen + 40 } else { 160 }
+    } else {
+        1200
+    };
     let target = match r.weighted(&[3, 4, 3, 4, 4, 4, 30, 20]) {
         0 => 0,
         1 => r.below(maxlen.max(1)),
